@@ -72,21 +72,25 @@ Definition convert_file (sx : secs) (e : enc) (dirs : list N) (ls : strtab) (f :
 (* the header as DebugLine::program(offset, address_size, comp_dir, comp_name) holds it *)
 Record src_hdr : Type := mk_src { sh_h : header; sh_comp_dir : option (list byte); sh_comp_name : option (list byte) }.
 
+(* `slice.get(n as usize)` for a u64 index (never builds a huge unary number) *)
+Definition get_n {A} (l : list A) (n : N) : option A :=
+  if N.of_nat (length l) <=? n then None else nth_error l (N.to_nat n).
+
 (* LineProgramHeader::directory *)
 Definition hdr_directory (s : src_hdr) (d : N) : option form_val :=
   let h := sh_h s in
   if h_version h <=? 4 then
     if d =? 0 then option_map VString (sh_comp_dir s)
-    else nth_error (h_dirs h) (N.to_nat (d - 1))
-  else nth_error (h_dirs h) (N.to_nat d).
+    else get_n (h_dirs h) (d - 1)
+  else get_n (h_dirs h) d.
 
 (* LineProgramHeader::file (comp_file = FileEntry { path_name: comp_name, directory_index: 0, .. }) *)
 Definition hdr_file (s : src_hdr) (f : N) : option file_entry :=
   let h := sh_h s in
   if h_version h <=? 4 then
     if f =? 0 then option_map (fun n => mk_file (VString n) 0 0 0 (repeat x00 16) None) (sh_comp_name s)
-    else nth_error (h_files h) (N.to_nat (f - 1))
-  else nth_error (h_files h) (N.to_nat f).
+    else get_n (h_files h) (f - 1)
+  else get_n (h_files h) f.
 
 Definition fmt_has (h : header) (ct : N) : bool := existsb (fun e => ef_ct e =? ct) (h_file_fmt h).
 Definition hdr_has_timestamp (h : header) : bool := (h_version h <=? 4) || fmt_has h LNCT_timestamp.
